@@ -22,7 +22,7 @@ LANG_ARGS = {"typescript": [], "kotlin": ["--java-package", "com.x"], "swift": [
 # concrete source versions for the abstract v1..v4 of MC_Writer: a type changes and a crate loses its types (v2),
 # a type moves between crates and the unit type appears (v3: Swift's shared Codable.swift), more item kinds (v4)
 SOURCES = {
-    "v1": {"ca/src/lib.rs": "#[typeshare]\npub struct A { pub x: u32 }\n",
+    "v1": {"ca/src/lib.rs": "/** Account record.\n * second line of the block comment\n */\n#[typeshare]\npub struct A { pub x: u32 }\n",
            "cb/src/lib.rs": "#[typeshare]\npub struct B { pub y: String }\n"},
     "v2": {"ca/src/lib.rs": "#[typeshare]\npub struct A2 { pub x: u32, pub z: bool }\n",
            "cb/src/lib.rs": "pub struct NotShared;\n"},
@@ -32,6 +32,10 @@ SOURCES = {
            "cb/src/lib.rs": "#[typeshare]\npub struct B { pub y: String }\n#[typeshare]\npub type T = Vec<B>;\n",
            "cc/src/deep/er.rs": "#[typeshare]\n#[serde(tag = \"t\", content = \"c\")]\npub enum G { N(u32), S { f: Option<()> } }\n"},
 }
+
+
+# v5 = v1 checked out with CRLF line endings (MC_Writer!MCVersions)
+SOURCES["v5"] = {p: t.replace("\n", "\r\n") for p, t in SOURCES["v1"].items()}
 
 
 def set_sources(root, v):
@@ -57,7 +61,7 @@ def path_class(p):
 
 def run(chk):
     thorough = chk.tier == "thorough"
-    chk.rule = ("spec->impl: every history of up to " + ("5" if thorough else "3") + " runs over 4 source versions (MC_Writer) executed with the "
+    chk.rule = ("spec->impl: every history of up to " + ("4" if thorough else "3") + " runs over 5 source versions (MC_Writer) executed with the "
                 "real binary into one output location, single- and multi-file mode, " + ("6 languages" if thorough else "TypeScript and Swift") +
                 "; impl->spec: snapshot (sha256, mtime_ns) after every run, judged by Trace_Writer. distinct = (language, mode, history prefix).")
     chk.assumptions = ["mtime equality is compared in ns; runs are >= 3 ms apart", "fresh content = what the same binary writes into an empty location"]
